@@ -291,3 +291,129 @@ def config_grid_light(r, k=0):
     for i, (c, w, rn) in enumerate(combos):
         out.append(dict(ignore=0, use_color=c, color_words=w, **tools_for(rn, i + k + 1)))
     return out
+
+# ------------------------------------------------------------------ boundary values at dictionary entries
+# Entries of the free-form dictionaries of a notebook (notebook / cell / output metadata and the dictionaries nested in
+# them, kernelspec / language_info extras, MIME bundles of outputs and attachments) and the schema's own string fields,
+# whose value is a boundary value of its type: the empty string, blank or newline-only strings, strings with / without a
+# final newline, zero, negative and huge numbers, booleans, null, empty and nearly empty containers.  An edit makes such an
+# entry appear, disappear, change type or change value (either side of the edit may hold the boundary value).
+ABSENT = ('absent',)          # sentinel: the entry does not exist (compared with `is`)
+BOUNDARY_STRINGS = ['', '', '', ' ', '\n', '\n\n', ' \n', '\t', 'x', 'no final newline', 'one line\n', 'two\nlines', 'two\nlines\n',
+                    '\nleading newline', '0', 'null', 'é', '<<<<<<< local', '# x']
+BOUNDARY_OTHERS = [0, -1, 0.0, -0.5, 1e100, 10 ** 20, True, False, None, [], {}, [''], [[]], [None], [{}], {'': ''}, {'k': ''}, {'k': []},
+                   {'k': None}, ['', '\n'], [0, ''], {'a': {'b': ''}}, ['x' * 90, '']]
+BOUNDARY_EXOTIC = ['\r', '\r\n', '\x0c', U2028, 'a' + U2028, '\x85', '\x1c\x1d', 'a\rb']
+BOUNDARY_KEYS = ['label', 'c16', 'k 1', '7', '+1', 'with.dot', 'ключ', 'Label']
+MIME_TEXT_KEYS = ['text/plain', 'text/x-c16', 'text/markdown', 'text/html']
+MIME_JSON_KEYS = ['application/json', 'application/vnd.c16+json']
+ATTACH_KEYS = ['image/png', 'text/plain', 'image/x-c16']
+STRING_FIELDS = {'source', 'text', 'ename', 'evalue'}
+
+def _at(doc, path):
+    for k in path: doc = doc[k]
+    return doc
+
+def _nested_dicts(d, path, skip=()):
+    return [path + (k,) for k in sorted(d) if isinstance(d[k], dict) and k not in skip]
+
+def boundary_sites(nb):
+    """kind -> list of (path of a dictionary, value class) into which entries may be put without leaving the v4 schema.
+    value class: 'any' (free-form), 'text' (MIME bundle entry that must be a string), 'field:<name>' (an existing string field
+    of the schema: the key is fixed)"""
+    s = {}
+    def add(kind, path, cls): s.setdefault(kind, []).append((path, cls))
+    md = nb['metadata']
+    add('nb_metadata', ('metadata',), 'any')
+    for p in _nested_dicts(md, ('metadata',)): add('nb_metadata_nested', p, 'any')
+    if isinstance(md.get('language_info'), dict): add('field', ('metadata', 'language_info'), 'field:name')
+    if isinstance(md.get('kernelspec'), dict): add('field', ('metadata', 'kernelspec'), 'field:display_name')
+    for i, c in enumerate(nb['cells']):
+        cp = ('cells', i)
+        add('cell_metadata', cp + ('metadata',), 'any')
+        for p in _nested_dicts(c['metadata'], cp + ('metadata',)): add('cell_metadata_nested', p, 'any')
+        add('field', cp, 'field:source')
+        for name in sorted(c.get('attachments', {})): add('attachment_mime', cp + ('attachments', name), 'attach')
+        for j, o in enumerate(c.get('outputs', [])):
+            op = cp + ('outputs', j)
+            if 'metadata' in o:
+                add('output_metadata', op + ('metadata',), 'any')
+                for p in _nested_dicts(o['metadata'], op + ('metadata',)): add('output_metadata_nested', p, 'any')
+            if 'data' in o: add('output_data', op + ('data',), 'mime')
+            if o['output_type'] == 'stream': add('field', op, 'field:text')
+            if o['output_type'] == 'error':
+                add('field', op, 'field:ename'); add('field', op, 'field:evalue')
+    return s
+
+def boundary_value(r, cls, exotic=False):
+    """a value allowed at a slot of the given class, boundary values of the type first"""
+    strings = BOUNDARY_STRINGS + (BOUNDARY_EXOTIC if exotic else [])
+    if cls == 'text': return r.choice(strings)
+    c = r.random()
+    if c < 0.5: return r.choice(strings)
+    if c < 0.9: return copy.deepcopy(r.choice(BOUNDARY_OTHERS))
+    return gen_meta_value(r, 1)
+
+def _same_json(x, y):
+    if x is ABSENT or y is ABSENT: return x is y
+    return repr(x) == repr(y)          # 0, 0.0 and False are different values here
+
+def boundary_slots(r, nb, n=None):
+    """n distinct (dictionary path, key, value class) slots of nb, spread over the kinds of site it has"""
+    sites = boundary_sites(nb)
+    if n is None: n = r.choice([1, 1, 1, 2, 3])
+    slots = []; seen = set()
+    for _ in range(n * 3):
+        if len(slots) == n: break
+        kind = r.choice(sorted(sites))
+        path, cls = r.choice(sites[kind])
+        if cls.startswith('field:'): key = cls[6:]; cls = 'text'; fixed = True
+        elif cls == 'mime':
+            key = r.choice(MIME_TEXT_KEYS + MIME_JSON_KEYS); cls = 'any' if key in MIME_JSON_KEYS else 'text'; fixed = False
+        elif cls == 'attach': key = r.choice(ATTACH_KEYS); cls = 'text'; fixed = False
+        else: key = r.choice(BOUNDARY_KEYS); fixed = False
+        if (path, key) in seen: continue
+        seen.add((path, key)); slots.append((path, key, cls, fixed))
+    return slots
+
+def boundary_fill(r, nb, slots, exotic=False, absent=0.4):
+    """a deep copy of nb in which every slot holds a fresh value (or, for a removable entry, nothing at all) that differs
+    from what nb holds there"""
+    b = copy.deepcopy(nb)
+    for path, key, cls, fixed in slots:
+        d = _at(b, path); old = d.get(key, ABSENT)
+        for _ in range(20):
+            new = ABSENT if (not fixed and r.random() < absent) else boundary_value(r, cls, exotic)
+            if not _same_json(old, new): break
+        else: new = 'changed'
+        if new is ABSENT: d.pop(key, None)
+        else: d[key] = new
+    return b
+
+def boundary_base(r, exotic=False):
+    """a generated notebook that certainly has a code cell with a rich output (metadata + MIME bundle) and, half of the time, a
+    markdown cell with an attachment, so that every kind of site exists"""
+    nb = gen_notebook(r, ncells=r.choice([0, 1, 2, 3]), exotic=exotic)
+    cell = {'cell_type': 'code', 'execution_count': r.choice([None, 1]), 'metadata': r.choice([{}, {'custom': {'a': 1}}]), 'source': gen_text(r, r.choice([0, 1, 2])),
+            'outputs': [{'output_type': r.choice(['display_data', 'execute_result']), 'data': gen_mimebundle(r), 'metadata': r.choice([{}, {'image/png': {'width': 3}}])}]}
+    if cell['outputs'][0]['output_type'] == 'execute_result': cell['outputs'][0]['execution_count'] = cell['execution_count']
+    if r.random() < 0.5: cell['outputs'].append({'output_type': 'stream', 'name': 'stdout', 'text': gen_text(r, r.choice([1, 2]))})
+    cells = [cell]
+    if r.random() < 0.5: cells.append({'cell_type': 'markdown', 'metadata': {}, 'source': '![img](attachment:image.png)\n', 'attachments': gen_attachments(r)})
+    for c in cells:
+        if nb['nbformat_minor'] >= 5: c['id'] = cell_id(r)
+        nb['cells'].insert(r.randrange(len(nb['cells']) + 1), c)
+    return nb
+
+def boundary_triple(r, exotic=False):
+    """(base, local, remote, slots): base holds some value (or nothing) in each slot, local another; remote is, in rotation,
+    equal to base, another filling of the same slots (agreement or conflict) or an ordinary edit of base"""
+    nb = boundary_base(r, exotic)
+    slots = boundary_slots(r, nb)
+    base = boundary_fill(r, nb, slots, exotic, absent=0.5)
+    local = boundary_fill(r, base, slots, exotic)
+    c = r.random()
+    if c < 0.35: remote = copy.deepcopy(base)
+    elif c < 0.75: remote = boundary_fill(r, base, slots, exotic)
+    else: remote, _ = mutate(r, base, n=r.choice([1, 2]), exotic=exotic)
+    return base, local, remote, slots
